@@ -25,20 +25,23 @@ for prop in sorted(os.listdir(SRC)):
         cf = os.path.join(CF, "%s_%s.result.json" % (prop, m))
         if os.path.exists(cf):
             conf = json.load(open(cf))
+        base = "cf7291f"
+        if os.path.exists(os.path.join(mdir, "base.txt")):
+            base = open(os.path.join(mdir, "base.txt")).read().strip()
         old = {}
         if os.path.exists(os.path.join(out, "meta.json")):
             old = json.load(open(os.path.join(out, "meta.json")))
         meta = {
             "id": sid,
             "property": prop,
-            "origin": "written by a sub-agent that was given only the text of property %s and a scratch worktree of /repo at cf7291f" % prop,
+            "origin": "written by a sub-agent (round %s) that was given only the text of property %s and a scratch worktree of /repo at %s" % ("2" if base != "cf7291f" else "1", prop, base),
             "summary": agent.get("summary", ""),
             "needs_to_manifest": agent.get("needs_to_manifest", ""),
             "demo_cmd": agent.get("demo_cmd", ""),
             "demo_features": agent.get("demo_features", ""),
-            "patch_base": "cf7291f (patch.diff)" + ("; patch_head.diff is the same change ported by hand onto the tree that contains the D1 fix (d4357ad), because the original context was changed by that fix" if os.path.exists(os.path.join(out, "patch_head.diff")) else ""),
+            "patch_base": base + " (patch.diff)" + ("; patch_head.diff is the same change ported by hand onto the tree that contains the D1 fix (d4357ad), because the original context was changed by that fix" if os.path.exists(os.path.join(out, "patch_head.diff")) else ""),
             "confirmed_by_coordinator": {
-                "what_was_run": "scratch worktree of /repo at cf7291f: git apply patch.diff; cargo build --all-features; the pinned suite (cargo nextest run --workspace ... --test-threads 8 --offline); demo copied to tests/seed_demo.rs and run with the mutant, then without (git apply -R)",
+                "what_was_run": "scratch worktree of /repo at " + base + ": git apply patch.diff; cargo build --all-features; the pinned suite (cargo nextest run --workspace ... --test-threads 8 --offline); demo copied to tests/seed_demo.rs and run with the mutant, then without (git apply -R)",
                 "build_all_features": conf.get("build_all_features"),
                 "suite_with_mutant": conf.get("suite_with_mutant"),
                 "demo_exit_with_mutant": conf.get("demo_exit_with_mutant"),
